@@ -21,6 +21,7 @@ def _bad(fields):
 
 class C09(Spec):
     prop = "C09"
+    needs_factx = True   # the driver reads Gen.pcacheInitCapacity
     lean_modules = ["SonicSpec.Props.C09"]
     rule = ("phist: a fixed probe set (Marshal/Unmarshal of plain, deeply nested, recursive, same-named (two packages, two function-local "
             "types), equal-hash reflect.StructOf and pointer-receiver-marshaler types) executed in a FRESH PROCESS after a prelude (permuted first use, Pretouch/PretouchMany with inline/recursion depths, "
